@@ -31,6 +31,10 @@ func errorRows(c *Ctx, pkgs map[string]bool) []errRow {
 		if s.callee != nil && !inModule(s.callee) {
 			continue
 		}
+		// a module helper whose errors all come from the standard library (strconv, os, …) raises no exception
+		if sc := s.call.Common().StaticCallee(); sc != nil && goErrorsOnly(c, sc) {
+			continue
+		}
 		cn := "<dynamic>"
 		if s.callee != nil {
 			cn = FuncID(s.callee)
@@ -45,6 +49,88 @@ func errorRows(c *Ctx, pkgs map[string]bool) []errRow {
 	}
 	sort.Slice(rows, func(i, j int) bool { return rows[i].key < rows[j].key })
 	return rows
+}
+
+// goErrorsOnly: every error the function returns is nil, the error of a call to a function outside the module,
+// or the error of a module function of which the same holds. Such a helper (a wrapper around strconv.Atoi, say)
+// hands back Go errors, not Python exceptions; what its caller does with them is not an exception being lost.
+// Only functions introduced since the reference was written are looked at: for the others the reviewed rows stand.
+var goErrMemo = map[*ssa.Function]int{} // 1 yes, 2 no, 3 in progress
+
+func goErrorsOnly(c *Ctx, fn *ssa.Function) bool {
+	if fn == nil || fn.Blocks == nil || fn.Object() == nil {
+		return false
+	}
+	if f, ok := fn.Object().(*types.Func); !ok || !isNewFunc(FuncID(f)) {
+		return false
+	}
+	switch goErrMemo[fn] {
+	case 1:
+		return true
+	case 2, 3:
+		return false
+	}
+	goErrMemo[fn] = 3
+	ok := true
+	seen := map[ssa.Value]bool{}
+	var fromGo func(v ssa.Value) bool
+	fromGo = func(v ssa.Value) bool {
+		if seen[v] {
+			return true
+		}
+		seen[v] = true
+		switch x := v.(type) {
+		case *ssa.Const:
+			return x.IsNil()
+		case *ssa.Phi:
+			for _, e := range x.Edges {
+				if !fromGo(e) {
+					return false
+				}
+			}
+			return true
+		case *ssa.Extract:
+			return fromGo(x.Tuple)
+		case *ssa.ChangeInterface:
+			return fromGo(x.X)
+		case *ssa.Call:
+			callee := x.Common().StaticCallee()
+			if callee == nil {
+				return false
+			}
+			if f, isF := callee.Object().(*types.Func); isF && !inModule(f) {
+				return true
+			}
+			return goErrorsOnly(c, callee)
+		}
+		return false
+	}
+	nret := 0
+	for _, b := range fn.Blocks {
+		for _, in := range b.Instrs {
+			ret, isRet := in.(*ssa.Return)
+			if !isRet {
+				continue
+			}
+			for _, res := range ret.Results {
+				if isErrorType(res.Type()) {
+					nret++
+					if !fromGo(res) {
+						ok = false
+					}
+				}
+			}
+		}
+	}
+	if nret == 0 {
+		ok = false
+	}
+	if ok {
+		goErrMemo[fn] = 1
+	} else {
+		goErrMemo[fn] = 2
+	}
+	return ok
 }
 
 func init() {
@@ -124,6 +210,27 @@ func runErrorDiscipline(c *Ctx, r *Rep) {
 		n++
 		r.analysed(ssaFuncID(row.site.fn))
 		key := row.key
+		// a site that sits in a helper extracted from a function whose row was reviewed keeps that review
+		if _, listed := sanctionedErrSites[key]; !listed {
+			if _, listed2 := sanctionedErrClassify[key]; !listed2 {
+				if f, ok := row.site.fn.Object().(*types.Func); ok && isNewFunc(FuncID(f)) {
+					if fd := c.Decl(f); fd != nil {
+						if p := c.DeclPkg(f); p != nil {
+							parts := strings.SplitN(key, "|", 3)
+							for _, from := range knownCallers(c, p, fd) {
+								k2 := parts[0] + "|" + from + "|" + parts[2]
+								_, a1 := sanctionedErrSites[k2]
+								_, a2 := sanctionedErrClassify[k2]
+								if a1 || a2 {
+									key = k2
+									break
+								}
+							}
+						}
+					}
+				}
+			}
+		}
 		if why, ok := sanctionedErrSites[key]; ok && row.kind != "propagated" {
 			if !seen[key] {
 				r.ok("errors|"+key, row.site.pos, "reviewed (%s): %s", row.kind, why)
